@@ -81,7 +81,9 @@ def answer (line : String) : String :=
         let sel : List (Nat × List Nat) := byQuery.map fun (q, c) => (q, coverSelect sp.dist q k c)
         -- identical tie-breaking (std::pair's operator< = pairLt): the lists must agree entry by entry
         let wrap := firstBad sel fun _ (q, l) => if ids.getD q [] == l then none else some s!"q{q}"
-        let cq := firstBad byQuery fun _ (q, c) => if candidatesExact sp k q c then none else some s!"q{q}"
+        let cq := firstBad byQuery fun _ (q, c) =>
+          if !decide (CandsOk sp.dist pts q k c) then some s!"q{q}:candsOk"
+          else if candidatesExact sp k q c then none else some s!"q{q}"
         let cover := if (byQuery.map (·.1)).mergeSort == pts then "ok" else "bad"
         let mlists := pts.map fun i => ((sel.find? (·.1 == i)).map (·.2)).getD []
         let oracle := firstBad ids fun i l => if isExactKnn sp.dist pts k i l then none else some (reason sp k i l)
